@@ -9,8 +9,15 @@ EXTENDS NfsSpec, Json, IOUtils
 TraceFile == IF "TRACE" \in DOMAIN IOEnv THEN IOEnv.TRACE ELSE "trace.ndjson"
 Trace == ndJsonDeserialize(TraceFile)
 
-VARIABLES l, s, bad, seg, ctx
-vars == <<l, s, bad, seg, ctx>>
+FS == INSTANCE FsStruct
+
+VARIABLES l, s, bad, seg, ctx, fr
+vars == <<l, s, bad, seg, ctx, fr>>
+
+(* fr: the last structural snapshot's frame and what happened since ("none": nothing, *)
+(* "failed": only failed calls, "other": anything else) - a failed call must leave the  *)
+(* decoded disk, the allocators and the caches' content unchanged (C09).                *)
+NoFr == [valid |-> FALSE, frame |-> <<>>, since |-> "none"]
 
 (* ctx: what happened earlier in this segment; a rejection is also attributed to  *)
 (* the properties that speak about "everything observable afterwards".            *)
@@ -19,7 +26,7 @@ CtxRules == (IF "failed" \in ctx THEN <<"C09:after-failed-operation">> ELSE <<>>
 
 Dummy == InitState("", TRUE)
 
-TInit == l = 1 /\ s = Dummy /\ bad = TRUE /\ seg = 0 /\ ctx = {}
+TInit == l = 1 /\ s = Dummy /\ bad = TRUE /\ seg = 0 /\ ctx = {} /\ fr = NoFr
 
 Report(line, rules, e) ==
   PrintT("VIOL " \o ToJson([line |-> line, seg |-> seg, rules |-> rules \o CtxRules,
@@ -42,8 +49,12 @@ Consume ==
   /\ l' = l + 1
   /\ LET e == Trace[l] IN
      IF e.ev = "reset"
-     THEN /\ s' = InitState(e.root, e.unstable) /\ bad' = FALSE /\ seg' = e.seg /\ ctx' = {}
+     THEN /\ s' = InitState(e.root, e.unstable) /\ bad' = FALSE /\ seg' = e.seg /\ ctx' = {} /\ fr' = NoFr
      ELSE /\ seg' = seg
+          /\ fr' = IF e.ev = "snap" THEN [valid |-> e.idle /\ e.running, frame |-> FS!Frame(e), since |-> "none"]
+                   ELSE IF e.ev = "call" /\ e.st # "OK" /\ fr.since \in {"none", "failed"} THEN [fr EXCEPT !.since = "failed"]
+                   ELSE IF e.ev = "call" /\ e.proc \in {"GETATTR", "LOOKUP", "ACCESS", "READLINK", "READDIR", "READDIRPLUS", "FSINFO", "PATHCONF", "NULL"} THEN fr
+                   ELSE [fr EXCEPT !.since = "other"]
           /\ ctx' = IF e.ev = "call" /\ e.st # "OK" /\ Mutating(e) THEN ctx \cup {"failed"}
                     ELSE IF e.ev = "restart" THEN ctx \cup {"restart"} ELSE ctx
           /\ IF bad THEN UNCHANGED <<s, bad>>
@@ -55,6 +66,17 @@ Consume ==
                          LET v == DumpRules(s.objs, e) IN
                          IF v = <<>> THEN UNCHANGED <<s, bad>>
                          ELSE Report(l, <<"C02,C09,C10:state-differs-from-reference">> \o v, e) /\ bad' = TRUE /\ s' = s
+                    [] e.ev = "snap" ->
+                         LET v == FS!StructRules(e)
+                                  \o (IF e.who = "run" /\ e.idle /\ Cardinality(FS!Live(e)) # Cardinality(DOMAIN s.objs)
+                                      THEN <<"C04,C05:live-inode-count-differs-from-reference">> ELSE <<>>)
+                                  \o (IF fr.valid /\ fr.since = "failed" /\ e.idle /\ e.running /\ FS!Frame(e) # fr.frame
+                                      THEN <<"C09:failed-operation-changed-disk-or-allocators">> ELSE <<>>)
+                         IN IF v = <<>> THEN UNCHANGED <<s, bad>>
+                            ELSE Report(l, v, e) /\ UNCHANGED <<s, bad>>   \* the abstract state is still in step: go on
+                    [] e.ev = "freecheck" ->
+                         IF e.freeb + e.rootblocks - 1 = e.freeb0 /\ e.freei = e.freei0 /\ DOMAIN s.objs = {RootId} THEN UNCHANGED <<s, bad>>
+                         ELSE Report(l, <<"C05:free-space-not-back-to-initial-after-deleting-everything">>, e) /\ bad' = TRUE /\ s' = s
                     [] e.ev = "restart" -> Recover(e, <<>>)
                     [] e.ev = "fatal" -> Report(l, <<"ALL,C11:server-died">>, e) /\ bad' = TRUE /\ s' = s
                     [] OTHER -> UNCHANGED <<s, bad>>
